@@ -44,14 +44,40 @@ def collisionFree : Spec → List MapOp → Bool
 /-- For EVERY history (identity collisions included): the identity reported for a pipe is its current one … -/
 theorem pipe_identity_refines (h : List MapOp) (pipe : Nat) (id : Ident) :
     (h.foldl applyOp {}).identityOfPipe pipe = some id ↔ ∃ info, amGet (h.foldl specApply []) pipe = some (id, info) := by
-  sorry
+  have gen : ∀ (h : List MapOp) (m : RouterMap) (sp : Spec), RouterInv m sp →
+      RouterInv (h.foldl applyOp m) (h.foldl specApply sp) := by
+    intro h
+    induction h with
+    | nil => intro m sp hinv; exact hinv
+    | cons op rest ih =>
+      intro m sp hinv
+      simp only [List.foldl_cons]
+      refine ih _ _ ?_
+      cases op with
+      | add id pipe uri => exact RouterInv.addPeer m sp pipe id uri hinv
+      | update pipe id uri s => exact RouterInv.updateIdentity m sp pipe id uri s hinv
+      | removePipe pipe => exact RouterInv.removeByPipe m sp pipe hinv
+  exact (gen h {} [] RouterInv.init).1 pipe id
 
 /-- … and a lookup never yields a dead or a wrong connection: whatever it returns is the endpoint of a LIVE pipe
 that currently holds exactly that identity (with the strategy that pipe registered). -/
 theorem lookup_sound (h : List MapOp) (id : Ident) (info : PeerInfo)
     (hl : (h.foldl applyOp {}).lookup id = some info) :
     amGet (h.foldl specApply []) info.pipe = some (id, info) := by
-  sorry
+  have gen : ∀ (h : List MapOp) (m : RouterMap) (sp : Spec), RouterInv m sp →
+      RouterInv (h.foldl applyOp m) (h.foldl specApply sp) := by
+    intro h
+    induction h with
+    | nil => intro m sp hinv; exact hinv
+    | cons op rest ih =>
+      intro m sp hinv
+      simp only [List.foldl_cons]
+      refine ih _ _ ?_
+      cases op with
+      | add id pipe uri => exact RouterInv.addPeer m sp pipe id uri hinv
+      | update pipe id uri s => exact RouterInv.updateIdentity m sp pipe id uri s hinv
+      | removePipe pipe => exact RouterInv.removeByPipe m sp pipe hinv
+  exact (gen h {} [] RouterInv.init).2 id info hl
 
 /-- Refinement: for every collision-free history of add / re-identify / remove, looking an identity up yields
 exactly the endpoint (and send strategy) of the live pipe that currently holds that identity. -/
@@ -59,13 +85,38 @@ theorem router_map_refines (h : List MapOp) (hc : collisionFree [] h = true) :
     let m := h.foldl applyOp {}
     let sp := h.foldl specApply []
     (∀ id info, m.lookup id = some info ↔ ∃ pipe, amGet sp pipe = some (id, info)) := by
-  sorry
+  have gen : ∀ (h : List MapOp) (m : RouterMap) (sp : Spec), RouterInv m sp → RouterInvCF m sp →
+      collisionFree sp h = true →
+      RouterInv (h.foldl applyOp m) (h.foldl specApply sp)
+        ∧ RouterInvCF (h.foldl applyOp m) (h.foldl specApply sp) := by
+    intro h
+    induction h with
+    | nil => intro m sp hinv hcf _; exact ⟨hinv, hcf⟩
+    | cons op rest ih =>
+      intro m sp hinv hcf hfree
+      simp only [collisionFree, Bool.and_eq_true, Bool.not_eq_true'] at hfree
+      obtain ⟨hnc, hrest⟩ := hfree
+      simp only [List.foldl_cons]
+      cases op with
+      | add id pipe uri =>
+        exact ih _ _ (RouterInv.addPeer m sp pipe id uri hinv)
+          (RouterInvCF.addPeer m sp pipe id uri hcf (noCollision_of_any sp pipe id hnc)) hrest
+      | update pipe id uri s =>
+        exact ih _ _ (RouterInv.updateIdentity m sp pipe id uri s hinv)
+          (RouterInvCF.updateIdentity m sp pipe id uri s hcf (noCollision_of_any sp pipe id hnc)) hrest
+      | removePipe pipe =>
+        exact ih _ _ (RouterInv.removeByPipe m sp pipe hinv) (RouterInvCF.removeByPipe m sp pipe hcf) hrest
+  obtain ⟨⟨_, hB⟩, hC, _⟩ := gen h {} [] RouterInv.init RouterInvCF.init hc
+  intro m sp id info
+  constructor
+  · intro hl; exact ⟨info.pipe, hB id info hl⟩
+  · rintro ⟨pipe, hp⟩; exact hC pipe id info hp
 
 /-- a disconnected peer's identity stops being routable; everybody else is unaffected -/
 theorem remove_is_local (h : List MapOp) (pipe : Nat) (id : Ident)
     (hid : (h.foldl applyOp {}).identityOfPipe pipe ≠ some id) :
     ((h.foldl applyOp {}).removeByPipe pipe).lookup id = (h.foldl applyOp {}).lookup id := by
-  sorry
+  exact removeByPipe_lookup_other _ pipe id hid
 
 /-- identity collision (two live pipes announce the same identity): the newest claimant is addressed, and it
 stays routable when the older one disconnects (fixed: the older pipe's removal used to unroute it) -/
@@ -73,14 +124,14 @@ theorem collision_newest_wins :
     let h : List MapOp := [MapOp.add [7] 1 100, MapOp.add [7] 2 200, MapOp.removePipe 1]
     let m := h.foldl applyOp {}
     m.identityOfPipe 2 = some ([7] : Ident) ∧ (m.lookup ([7] : Ident)).map (·.uri) = some 200 := by
-  sorry
+  decide
 
 /-- … and when the newest claimant disconnects the identity becomes unroutable rather than pointing at a
 dead connection -/
 theorem collision_newest_removed :
     let h : List MapOp := [MapOp.add [7] 1 100, MapOp.add [7] 2 200, MapOp.removePipe 2]
     (h.foldl applyOp {}).lookup ([7] : Ident) = none := by
-  sorry
+  decide
 
 -- Part 2: envelopes ----------------------------------------------------------------------------------------
 
